@@ -73,9 +73,10 @@ def sparseOK (ch : List Nat) (Tkept : Mat) (r : Record) : Bool :=
   (ch.isEmpty || amp.getD (ch.idxOf r.best) 0 == listMax amp)
 
 /-- well-formed dense input: a rectangular `(ns ≥ 1, nc ≥ 1)` waveform, one position (and shank)
-per channel -/
+per channel, positions pairwise distinct (the loader replaces non-distinct positions by a linear
+layout, and `get_closest_channels` asserts that the nearest channel is the channel itself) -/
 def DenseWF (g : Geometry) (T : Mat) : Prop :=
   T ≠ [] ∧ 0 < ncols T ∧ (∀ row ∈ T, row.length = ncols T) ∧ g.positions.length = ncols T ∧
-  (∀ sh, g.shanks = some sh → sh.length = ncols T)
+  (∀ sh, g.shanks = some sh → sh.length = ncols T) ∧ g.positions.Nodup
 
 end PhyVerif.C05
